@@ -1450,12 +1450,12 @@ func hGet(n *Nodis, conn *redis.Conn, cmd redis.Command) {
 	execCommand(conn, func() {
 		key := cmd.Args[0]
 		field := cmd.Args[1]
-		v := string(n.HGet(key, field))
-		if v == "" {
+		v := n.HGet(key, field)
+		if v == nil {
 			conn.WriteBulkNull()
 			return
 		}
-		conn.WriteBulk(v)
+		conn.WriteBulk(string(v))
 	})
 }
 
